@@ -423,3 +423,42 @@ def c19f(ctx):
         ok = ok and good
     ctx.check(ok, 'BundleIndexV1.remove_tile_offset:entry-empty', 'a removed tile leaves an empty index entry (zeros, or the tile\'s zero-size record)', fn,
               fail='remove_tile_offset %s: the entry of a removed tile points at something that is not an empty record' % detail)
+
+
+@rule('C19.g', floor=2)
+def c19g(ctx):
+    """defragmenting changes no tile: the bundle that a rewritten bundle is collected in starts empty.  The temporary bundle has a
+    fixed name in the cache directory, and an interrupted run leaves its files there; before the temporary bundle object of an
+    iteration stores anything, files under that name have been removed (os.remove / os.unlink of a path built from the temporary
+    name dominates the store)"""
+    fn = ctx.fn(DEFRAG + ':defrag_compact_cache')
+    g = fn.cfg
+    defs = Defs(fn.node)
+    tmp = [nm for nm, ds in defs.defs.items() if any(isinstance(v, ast.Call) and call_name(v) in ('os.path.join', 'join') and
+                                                      any('tmp' in str(const_value(a, '')) for a in v.args) for v, sel in ds)]
+    ctor = [(n, x) for n, x in g.find(lambda x: is_call(x, 'cache.bundle_class')) if x.args and unparse(x.args[0]) in tmp]
+    if not tmp or not ctor:
+        raise Undecided('defrag_compact_cache: temporary bundle not found')
+    tb_objs = {unparse(g.stmt[n].targets[0]) for n, x in ctor if isinstance(g.stmt[n], ast.Assign)}
+    stores = g.find(lambda x: isinstance(x, ast.Call) and isinstance(x.func, ast.Attribute) and x.func.attr in ('store_tiles', 'store_tile') and
+                    unparse(x.func.value) in tb_objs)
+    removes = g.find(lambda x: is_call(x, 'os.remove', 'os.unlink') and x.args and
+                     (contains(x.args[0], lambda y: isinstance(y, ast.Name) and y.id in tmp) or
+                      contains(fn.canon.expr(x.args[0]), lambda y: isinstance(y, ast.Constant) and 'tmp' in str(y.value))))
+    # a removal that lies on every path from the construction of the temporary bundle (or the start of the iteration) to its stores:
+    # without the removing statements the stores are still reached only through the renames at the end of the previous iteration
+    loops = [l for l in fn.walk() if isinstance(l, ast.For) and any(inside(x, l) for n, x in ctor)]
+    before = [(n, x) for n, x in removes if loops and inside(x, loops[0]) and any(x.lineno < c.lineno for _, c in ctor)]
+    exts = set()
+    for n, x in before:
+        lp = enclosing(x, ast.For)
+        if lp is not None and lp is not loops[0] and isinstance(lp.iter, (ast.Tuple, ast.List)):
+            exts |= {const_value(e) for e in lp.iter.elts}
+        else:
+            exts |= {str(const_value(y)) for y in ast.walk(fn.canon.expr(x.args[0])) if isinstance(y, ast.Constant) and isinstance(const_value(y), str)}
+    ok = bool(stores) and bool(before) and any('.bundle' in str(e) for e in exts)
+    ctx.check(ok, 'defrag_compact_cache:temporary-bundle-starts-empty', 'left-over files of the temporary bundle are removed before a bundle is rewritten into it', fn,
+              fail='defrag_compact_cache stores into <cache_dir>/tmp_defrag without removing what an interrupted run left there: the tiles of '
+                   'that bundle turn up at addresses of the next one')
+    ok = any('.bundlx' in str(e) for e in exts)
+    ctx.check(ok, 'defrag_compact_cache:temporary-index-starts-empty', 'the index file of the temporary (V1) bundle is removed as well', fn)
